@@ -47,6 +47,12 @@ func concScenario(r *rand.Rand, id string, nscr, nrec int, tw *vh.TraceWriter, r
 	for len(ases) < 4 {
 		ases = append(ases, genAS(r, 1+r.Intn(3), false, nil))
 	}
+	// ill-formed but accepted by the SDK: an attribute value that is not valid UTF-8 (its series cannot be built)
+	ases = append(ases, finishAS([]Attr{{K: []Tok{w("k")}, T: "s", V: "v"}, {K: []Tok{w("u")}, T: "s", V: "ill", Ill: true}}))
+	// ... and a scope whose otel_scope_info cannot be built (fault path of the exporter's scope cache), present from
+	// the first overlapping scrapes on, and an instrument with an ill-formed description
+	badScope := ScopeRec{ID: "sX", Name: "sX", Version: "vsX", Attrs: []Attr{}, Ill: pick(r, []string{"name", "version", "attr"})}
+	scopeRecs := []ScopeRec{badScope}
 	ckinds := []string{"counter", "fcounter", "updown", "gauge", "hist", "fhist", "ocounter", "ogauge", "exphist"}
 	names := []string{"alpha", "beta", "gamma", "delta", "eps", "zeta"}
 	insts := []Inst{}
@@ -58,14 +64,22 @@ func concScenario(r *rand.Rand, id string, nscr, nrec int, tw *vh.TraceWriter, r
 		insts = append(insts, Inst{ID: i + 1, Scope: pick(r, []string{"sA", "sB"}), Toks: toks, Unit: pick(r, []string{"", "s", "By", "1"}),
 			Kind: pick(r, ckinds), Desc: pick(r, []string{"", "d1"})})
 	}
-	wd, err := newWorld(o, resAttrs)
+	insts = append(insts, Inst{ID: len(insts) + 1, Scope: "sX", Toks: []Tok{w("inbadscope")}, Kind: pick(r, ckinds), Desc: "d1"},
+		Inst{ID: len(insts) + 2, Scope: "sA", Toks: []Tok{w("baddesc")}, Kind: pick(r, ckinds), Desc: "d1", Ill: true})
+	insts[len(insts)-3], insts[len(insts)-1] = insts[len(insts)-1], insts[len(insts)-3] // the late instrument stays last
+	for i := range insts {
+		insts[i].ID = i + 1
+	}
+	wd, err := newWorldGate(o, resAttrs, true)
 	if err != nil {
 		res.Inconcl(id + ": " + err.Error())
 		return
 	}
 	defer wd.close()
 	wd.maxScale = 6
-	tw.Emit(map[string]any{"ev": "New", "sc": id, "opts": o, "res": resAttrs, "ases": ases, "bounds": boundsText, "qbounds": qbounds, "scopes": []ScopeRec{}, "mark": true})
+	wd.scopeRecs = scopeRecs
+	wd.register()
+	tw.Emit(map[string]any{"ev": "New", "sc": id, "opts": o, "res": resAttrs, "ases": ases, "bounds": boundsText, "qbounds": qbounds, "scopes": scopeRecs, "mark": true})
 	late := insts[len(insts)-1]
 	early := insts[:len(insts)-1]
 	for _, in := range early {
@@ -145,8 +159,11 @@ func concScenario(r *rand.Rand, id string, nscr, nrec int, tw *vh.TraceWriter, r
 			}
 		}(g)
 	}
+	// every round of scrapes meets at the gate inside Collect and continues into the exporter unordered
+	wd.gate.arm(nscr)
 	close(start)
 	wg.Wait()
+	wd.gate.arm(0)
 	streams, err := wd.sdkView()
 	if err != nil {
 		res.Inconcl(id + ": Reader.Collect: " + err.Error())
@@ -161,9 +178,9 @@ func concScenario(r *rand.Rand, id string, nscr, nrec int, tw *vh.TraceWriter, r
 		}
 	}
 	fin := wd.collectObs()
-	tw.Emit(map[string]any{"ev": "Scrape", "sc": id, "via": "collect", "obs": fin})
+	tw.Emit(map[string]any{"ev": "Scrape", "sc": id, "via": "collect", "phase": "reg", "obs": fin})
 	if fin.Panic == "" {
-		tw.Emit(map[string]any{"ev": "Scrape", "sc": id, "via": "gather", "obs": wd.gatherObs()})
+		tw.Emit(map[string]any{"ev": "Scrape", "sc": id, "via": "gather", "phase": "reg", "obs": wd.gatherObs()})
 	}
 	countObs(res, streams, fin)
 	res.Executed++
